@@ -1,6 +1,7 @@
 /-
   The graph case language extended for C05 / C06: interrupt sets per graph level, state with
-  pre/post handlers, rerun-requesting nodes, nested graphs that interrupt inside.
+  pre/post handlers, rerun-requesting nodes, nested graphs that interrupt inside, tag nodes with an
+  input key / output key (`WithInputKey` / `WithOutputKey`, same semantics as Oracle/C04.lean).
   JSON case → `IRunner FlatMap St Payload`; rendering of the call history.
   Interpreter glue only (the theorems quantify over arbitrary runners, handlers and bodies).
   The Go side of the same language is harness/gcase5.
@@ -60,6 +61,27 @@ def postH (key : Key) (out : FlatMap) (st : St) : FlatMap × St :=
   let st' := stSet (stSet st ("n:" ++ key) (toString n)) "tot" (toString tot)
   ([(key, hex32 (fnv32 (FlatMap.render out ++ "#post#" ++ toString n)))], st')
 
+/-- `WithInputKey k`: the node takes input[k]; `none` when the key is missing (the framework's
+    "cannot find input key" error, reported as user error 9997 as in Oracle/C04.lean) -/
+def restrictKey (k : Key) (v : FlatMap) : Option FlatMap :=
+  match v.find? (·.1 == k) with
+  | some kv => some [kv]
+  | none => none
+
+/-- the input key of a node case ("" / absent: none) -/
+def inKeyOf (n : Json) : Option Key :=
+  match (n.getObjVal? "inKey").toOption.bind (fun x => x.getStr?.toOption) with
+  | some "" => none
+  | o => o
+
+/-- what the body of a node with that input key sees -/
+def keyedInput (ik : Option Key) (v : FlatMap) : Option FlatMap :=
+  match ik with
+  | none => some v
+  | some k => restrictKey k v
+
+def missingKeyErr : Err := { cls := .user 9997 }
+
 /-- the variant of the code the oracle runs: the expected (repaired) one, unless the case pins a
     fact that belongs to the *other* property of the pair (C05 cases pin `initialChecked`, C06 cases
     pin `fwdStale` to what the implementation under test does; each property's theorems hold for both
@@ -84,10 +106,18 @@ partial def parseNode (theCfg : Cfg) (lv : Nat → ISched FlatMap St Payload) (d
     match (← J.str b "op") with
     | "tag" =>
       let rr := if plain then 0 else J.natD b "rerun" 0
+      -- `WithInputKey` / `WithOutputKey` (inside the state handlers): the lambda sees {inKey: input[inKey]}
+      -- (the framework fails the node when the key is missing, before the lambda runs); its string
+      -- output appears downstream as {outKey: s} instead of {key: s}
+      let ik := inKeyOf n
+      let okey := match J.strD n "outKey" "" with | "" => key | k => k
       pure (fun (v : FlatMap) (st : St) (_ : Option Payload) =>
-        let att := stNum st ("a:" ++ key)
-        if att < rr then ({ res := .rerun (stSet st ("a:" ++ key) (toString (att + 1))) } : BodyOut FlatMap St Payload)
-        else { res := .done (tagBody key v) st })
+        match keyedInput ik v with
+        | none => ({ res := .fail missingKeyErr st } : BodyOut FlatMap St Payload)
+        | some v' =>
+          let att := stNum st ("a:" ++ key)
+          if att < rr then ({ res := .rerun (stSet st ("a:" ++ key) (toString (att + 1))) } : BodyOut FlatMap St Payload)
+          else { res := .done [(okey, ((tagBody key v').headD ("", "")).2)] st })
     | "pass" => pure (fun v st _ => ({ res := .done v st } : BodyOut FlatMap St Payload))
     | "fail" => do
       let id ← J.nat b "id"
@@ -169,6 +199,14 @@ def opAt (g : Json) (p : List Key) : String :=
           | .error _ => none
         else none)).getD ""
 
+/-- the node case at a node path -/
+def nodeAt (g : Json) (p : List Key) : Option Json :=
+  match p.reverse with
+  | [] => none
+  | k :: revParent =>
+    (graphAt g revParent.reverse).bind (fun pg =>
+      (J.arrD pg "nodes").find? (fun n => J.strD n "key" "" == k))
+
 partial def infoJson (g : Json) (i : Info St Payload) : Json :=
   let hasState := J.boolD g "state" false
   Json.mkObj [
@@ -219,7 +257,10 @@ def callJson (g : Json) (o : Out FlatMap St Payload) : Json :=
     match ev with
     | .start p v =>
       let op := opAt g p
-      if op == "tag" || op == "fail" then some (pathStr p ++ " " ++ FlatMap.render v) else none
+      if op == "tag" then
+        -- a keyed lambda is recorded with what it receives; it does not run when its key is missing
+        (keyedInput ((nodeAt g p).bind inKeyOf) v).map (fun v' => pathStr p ++ " " ++ FlatMap.render v')
+      else if op == "fail" then some (pathStr p ++ " " ++ FlatMap.render v) else none
     | _ => none)
   let stored := o.evs.any (fun ev => match ev with | .storeSet => true | _ => false)
   Json.mkObj (resJson g o.res ++ [
